@@ -60,7 +60,16 @@ def _check_structs(spec):
                 raise Broken("field/variant %s of %s disappeared from %s" % (fld, sc["name"], sc["file"]))
 
 
-def assemble(unit):
+def _falsify(contract):
+    """vacuity probe: add `false` to the postcondition; the function must then FAIL to verify, otherwise its
+    precondition (or an assumed callee contract on its path) is contradictory."""
+    c = contract.rstrip()
+    if re.search(r"\bensures\b", c):
+        return c.rstrip(",") + ",\n            false,"
+    return c + "\n        ensures false,"
+
+
+def assemble(unit, vacuity=False):
     udir = os.path.join(VERIF, "verus", unit)
     with open(os.path.join(udir, "spec.toml"), "rb") as f:
         spec = tomllib.load(f)
@@ -93,6 +102,8 @@ def assemble(unit):
         if pos is None:
             raise Broken("no body found after rewriting %s" % fn["id"])
         contract = fn.get("contract", "").rstrip()
+        if vacuity:
+            contract = _falsify(contract)
         attrs = "".join("    %s\n" % a for a in fn.get("attrs", []))
         text = attrs + "    " + text[:pos].rstrip() + "\n" + contract + "\n    " + text[pos:]
         into = fn.get("into", "")
@@ -138,6 +149,38 @@ def trusted_scan(env_text, spec):
     for m in re.finditer(r"#\[verifier::(external|external_fn_specification|external_type_specification)\]", env_text):
         t.append("verus %s item in env.rs" % m.group(1))
     return t
+
+
+def vacuity_probe(unit):
+    """Returns the list of extracted functions that still verify with `ensures false` added (must be empty)."""
+    spec, text, finfo, ranges = assemble(unit, vacuity=True)
+    d = os.path.join(WORK, "verus")
+    os.makedirs(d, exist_ok=True)
+    path = os.path.join(d, "vu_" + unit + "_vacuity.rs")
+    with open(path, "w") as f:
+        f.write(text)
+    cmd = ["verus", path, "--output-json", "--time-expanded", "--rlimit", "30", "--num-threads", str(min(NCPU, 8)), "--multiple-errors", "1"]
+    rc, out, secs, timed_out = run(cmd, cwd=d, timeout=900)
+    lines = out.splitlines()
+    try:
+        jstart = next(i for i, l in enumerate(lines) if l == "{")
+        jend = max(i for i, l in enumerate(lines) if l == "}")
+        data = json.loads("\n".join(lines[jstart:jend + 1]))
+    except (StopIteration, ValueError, json.JSONDecodeError):
+        raise Broken("verus produced no JSON for the vacuity probe of unit %s" % unit)
+    breakdown = {}
+    for mod in data.get("times-ms", {}).get("smt", {}).get("smt-run-module-times", []):
+        for fb in mod.get("function-breakdown", []):
+            breakdown[fb["function"].split("::", 1)[-1]] = fb
+    vacuous, probed = [], 0
+    for fid, fi in finfo.items():
+        fb = breakdown.get(fi["verus_name"])
+        if fb is None:
+            continue
+        probed += 1
+        if fb.get("success"):
+            vacuous.append(fid)
+    return {"probed": probed, "vacuous": vacuous}
 
 
 def run_unit(unit):
